@@ -200,6 +200,8 @@ class SimSocket:
             net.violations.append("recv under timeout %r, expected the I/O timeout %r" % (self.timeout, net.expect_io_timeout))
         if net.noreply_call:
             net.violations.append("recv issued by a call that asked for noreply (call %d)" % net.current_call)
+        if net.clock is not None:
+            net.clock.advance(net.recv_delay)
         if net.eintr_at is not None and net.nrecv == net.eintr_at:
             net.nrecv += 1
             net.eintr_fired = True
@@ -311,6 +313,8 @@ class NetSim:
         self.expect_io_timeout = "any"
         self.check_failed_reuse = False
         self.tls_expected = False
+        self.recv_delay = 0               # C09: every recv advances `self.clock` by this much (calls take time)
+        self.clock = None
         self.down = set()                 # addresses whose server currently refuses/reset connections
         self.request_hook = None
         self.reply_hook = None            # C03/C04: splice symbolic bytes into the concrete reply
